@@ -360,7 +360,7 @@ def _main(prop, pid, tier, seed, replay, rundir, t0):
         if 'glue-error' in model[i] or model[i].startswith('(abort'):
             notes.append('model runner problem on case %d: %s' % (i, model[i][:200]))
             mism.append(i)
-        elif ci != cm:
+        elif (not prop.agree(c.text, impl[i], model[i])) if hasattr(prop, 'agree') else (ci != cm):
             mism.append(i)
     if replay:
         for i, c in enumerate(cases):
@@ -383,7 +383,7 @@ def _main(prop, pid, tier, seed, replay, rundir, t0):
             b = run_side(RUNNER, [t], shards=1)[0]
             if 'glue-error' in a or 'glue-error' in b:
                 return False
-            return prop.canon(t, a) != prop.canon(t, b)
+            return (not prop.agree(t, a, b)) if hasattr(prop, 'agree') else (prop.canon(t, a) != prop.canon(t, b))
         small = c.text
         if not replay:
             try:
